@@ -6,6 +6,7 @@ import Driver.C07
 import Driver.C20
 import Driver.C01
 import Driver.C13
+import Driver.C15
 open AITB
 
 def handleLine (line : String) : String :=
@@ -20,6 +21,7 @@ def handleLine (line : String) : String :=
   | "C20" :: rest => DrvC20.handle rest
   | "C01" :: rest => DrvC01.handle rest
   | "C13" :: rest => DrvC13.handle rest
+  | "C15" :: rest => DrvC15.handle rest
   | _ => "bad-op"
 
 partial def loop (h : IO.FS.Stream) (out : IO.FS.Stream) : IO Unit := do
